@@ -291,3 +291,63 @@ Theorem C05_toy_block_read_back : forall (x : bytes) policy sync rest ch cap fue
   block_open toyst TRun (toy_enc x ++ sync ++ rest) ch (length (toy_enc x)) cap = Some s ->
   exists ch', block_run toyst toy_dread policy N byte_vdec fuel (length x) sync s = (x, BDone rest ch').
 Proof. exact toy_block_read_back. Qed.
+
+(** ** Whole files with compressed blocks (model/ContainerCodec.v, proofs/ContainerCodecProofs.v) *)
+Require Import ContainerCodec ContainerCodecProofs.
+
+(* a file written by the writer model with ANY block codec function enc -- any values, block layout, explicit
+   flushes, closing op, sink schedule on which the calls return Ok -- read by the reader for compressed files
+   (header through cr_open, then per block count / size / BufReader(cap) over a streaming decoder over Take / end
+   check / sync marker) yields the written metadata, exactly the written values in order, then end of stream:
+   for every decoder meeting the contract on the blocks the session cuts (stream_codec_ok), every capacity >= 1,
+   every read policy of the deserializer, from a slice AND from a source delivered in ANY chunking *)
+Theorem C05_compressed_file_read_back :
+  forall (enc : bytes -> bytes) (D : Type) (dread : D -> bytes -> option chunkst -> nat -> dres * D) (d0 : D)
+    (policy : nat -> nat -> option nat) (raw_dec : bytes -> option bytes) (crc32 : bytes -> N) (lfuel : nat) (Sc : fschema)
+    (cfg : dcfg) (root : fnode) (approx : N) (sync : bytes) (vectored : bool),
+  schema_wf Sc = true -> fnode_at Sc 0 = Some root -> length sync = 16%nat ->
+  forall (cap : nat) (json cname : bytes) (user : list (bytes * bytes)) (sched : list wans) (st0 : wstate) (hs : list hop)
+    (close : wop) (outs : list (wout * N)) (st' : wstate),
+  (1 <= cap)%nat -> ContainerHeaderProofs.keys_utf8 user -> (length user <= 998)%nat ->
+  wbuild sync json cname user sched = (WROk, st0) ->
+  Forall (value_ok Sc cfg root) (vals_of hs) -> fits (length (vals_of hs)) ->
+  (length (encs Sc root (vals_of hs)) < lfuel)%nat ->
+  stream_codec_ok enc D dread d0 Sc root (vals_of hs) ->
+  close = WFinish \/ close = WIntoInner \/ close = WDrop ->
+  wrun enc Sc approx sync vectored st0 (map (op_of Sc root) hs ++ [close]) = (outs, st') ->
+  Forall (fun r : wout * N => fst r = WROk) outs ->
+  ccr_file D dread d0 policy raw_dec crc32 dval (cc_vdec Sc cfg root) (BStream cap) lfuel (slice_reader (w_sink st')) =
+    Ok (ContainerHeaderProofs.header_entries json cname user, sync, map (dval_any Sc root) (vals_of hs), CEof) /\
+  (forall (plan : list N) (ma : N), N.of_nat (length (w_sink st')) <= ma ->
+   ccr_file D dread d0 policy raw_dec crc32 dval (cc_vdec Sc cfg root) (BStream cap) lfuel (chunked_reader (w_sink st') plan ma) =
+     Ok (ContainerHeaderProofs.header_entries json cname user, sync, map (dval_any Sc root) (vals_of hs), CEof)).
+Proof. exact ccr_file_read_back. Qed.
+
+(* the snappy layout (raw block + CRC-32 of the uncompressed data), for any raw codec that inverts and any 32-bit checksum *)
+Theorem C05_snappy_file_read_back :
+  forall (raw_enc : bytes -> bytes) (raw_dec : bytes -> option bytes) (crc32 : bytes -> N),
+  (forall x : bytes, raw_dec (raw_enc x) = Some x) -> (forall x : bytes, crc32 x < 4294967296) ->
+  forall (D : Type) (dread : D -> bytes -> option chunkst -> nat -> dres * D) (d0 : D) (policy : nat -> nat -> option nat)
+    (lfuel : nat) (Sc : fschema) (cfg : dcfg) (root : fnode) (approx : N) (sync : bytes) (vectored : bool),
+  schema_wf Sc = true -> fnode_at Sc 0 = Some root -> length sync = 16%nat ->
+  forall (json cname : bytes) (user : list (bytes * bytes)) (sched : list wans) (st0 : wstate) (hs : list hop) (close : wop)
+    (outs : list (wout * N)) (st' : wstate),
+  ContainerHeaderProofs.keys_utf8 user -> (length user <= 998)%nat ->
+  wbuild sync json cname user sched = (WROk, st0) ->
+  Forall (value_ok Sc cfg root) (vals_of hs) -> fits (length (vals_of hs)) ->
+  snappy_sizes_ok raw_enc crc32 Sc root (vals_of hs) ->
+  close = WFinish \/ close = WIntoInner \/ close = WDrop ->
+  wrun (snappy_encode raw_enc crc32) Sc approx sync vectored st0 (map (op_of Sc root) hs ++ [close]) = (outs, st') ->
+  Forall (fun r : wout * N => fst r = WROk) outs ->
+  ccr_file D dread d0 policy raw_dec crc32 dval (cc_vdec Sc cfg root) BSnappy lfuel (slice_reader (w_sink st')) =
+    Ok (ContainerHeaderProofs.header_entries json cname user, sync, map (dval_any Sc root) (vals_of hs), CEof) /\
+  (forall (plan : list N) (ma : N), N.of_nat (length (w_sink st')) <= ma ->
+   ccr_file D dread d0 policy raw_dec crc32 dval (cc_vdec Sc cfg root) BSnappy lfuel (chunked_reader (w_sink st') plan ma) =
+     Ok (ContainerHeaderProofs.header_entries json cname user, sync, map (dval_any Sc root) (vals_of hs), CEof)).
+Proof. exact file_read_back_snappy. Qed.
+
+Check ToyExample.toy_file_computed.      (* a concrete 121-byte two-block file, three reader configurations, damaged variants *)
+Check ToyExample.toy_file_by_theorem.
+Check ToyExample.snappy_file_computed.
+Check ToyExample.cap_zero_refuted.                  (* the hypotheses are needed *)
+Check ToyExample.max_alloc_small_refuted.
